@@ -13,7 +13,7 @@ Definition mfinal (st : xstate) (ops : list mop) : xstate := fold_left (fun s o 
 
 Lemma Good_init : Good init_state.
 Proof.
-  split; [|reflexivity]. constructor; cbn.
+  split; [|split; reflexivity]. constructor; cbn.
   - constructor.
   - intros i [].
   - intros k Hk. lia.
